@@ -8,15 +8,13 @@ from props.common import boot_ops, brokers, rand_bytes, rand_topic
 SLICE = "ProduceRequest / MessageProduceRequest encoding (KafkaClient::produce_messages, Producer::send_all), gzip and raw-snappy wrappers"
 RULE = ("random batches of 1-14 records (thorough: up to 30) over 1-4 topics x 1-4 partitions on 1-3 brokers, partitions repeated within a "
         "batch, 1-2 batches per case; keys and values drawn from {null, empty, 1 byte, 2-40 bytes binary, 'ab' strings, all 256 byte values, "
-        "runs of zero bytes, 41-400 bytes}; size classes per case: small (80%), one or two 1-4 KiB payloads incl. 4095/4096/4097 (16%), one "
-        "6-8 KiB payload (2-3%), one 12-20 KiB payload (quick: 4 cases, thorough: 48), thorough only: 2 cases whose plain set for one "
-        "partition exceeds 64 KiB (several snappy blocks); binary and compressible big payloads, as key or as value. Every class is spread "
-        "evenly over compression {NONE, GZIP, SNAPPY} x {KafkaClient::produce_messages after set_compression, Producer built with "
-        "with_compression + send_all, where an empty slice means absent}; acks in {1,-1,0}. (Big payloads are rationed because the "
-        "extracted model's cost grows faster than linearly with the request size.) The produce requests received by the reference brokers "
-        "are parsed with the independent codec (kproto, strict) and zlib; non-trivial = every batch of the case reached a broker as a "
-        "produce request with a non-empty message set and the case mixes at least two of {null, empty, non-empty} keys/values or holds a "
-        "payload >= 1 KiB")
+        "runs of zero bytes, 41-400 bytes}; size classes per case: small (70%), one or two 1-4 KiB payloads incl. 4095/4096/4097 (19%), one "
+        "6-8 KiB payload (6%), one 12-20 KiB payload (4%), and 1% cases in which the plain set of one partition exceeds 64 KiB (3 x 19-20 KiB "
+        "+ 9 KiB: several snappy blocks); big payloads binary or compressible, as key or as value. Every class is spread evenly over "
+        "compression {NONE, GZIP, SNAPPY} x {KafkaClient::produce_messages after set_compression, Producer built with with_compression + "
+        "send_all, where an empty slice means absent}; acks in {1,-1,0}. The produce requests received by the reference brokers are parsed "
+        "with the independent codec (kproto, strict) and zlib; non-trivial = every batch of the case reached a broker as a produce request "
+        "with a non-empty message set and the case mixes at least two of {null, empty, non-empty} keys/values or holds a payload >= 1 KiB")
 ASSUMPTIONS = ["tools/kproto.py (message-set parser, gzip via zlib, pure-python snappy block decoder) is an independent, conforming "
                "implementation of the Kafka v0 message format",
                "zlib.crc32 is CRC-32/ISO-HDLC"]
@@ -55,8 +53,7 @@ def big_payload(rng, n):
     return (unit * (n // len(unit) + 1))[:n]
 
 
-# The extracted model's cost grows faster than linearly with the size of a request (about 0.5 s at 4 KiB, 3 s at 8 KiB, 20 s at
-# 16-20 KiB on a loaded machine), so multi-KiB payloads are rationed per tier.
+# payload size classes of a case (bytes of the one or two big payloads it holds); "huge" = one partition set over 64 KiB
 SIZE_CLASSES = {"small": [], "kib": [1024, 1500, 2048, 4095, 4096, 4097], "8k": [8192, 6000, 8191], "20k": [20480, 20000, 16384, 12000],
                 "huge": []}
 
@@ -107,7 +104,7 @@ def make_case(rng, tier, mode=None, codec=None, size="small"):
         if size == "huge":
             # one partition whose plain message set exceeds 64 KiB (several snappy blocks)
             t, p = hot
-            recs = [(t, p, rand_payload(rng), big_payload(rng, rng.randint(17000, 20480))) for _ in range(3)] + \
+            recs = [(t, p, rand_payload(rng), big_payload(rng, rng.randint(19200, 20480))) for _ in range(3)] + \
                    [(t, p, None, big_payload(rng, 9000))] + recs[:2]
             rng.shuffle(recs)
         if mode == "client":
@@ -124,8 +121,8 @@ def make_case(rng, tier, mode=None, codec=None, size="small"):
 
 def gen(rng, tier):
     quick = tier == "quick"
-    plan = [("small", 420 if quick else 4200), ("kib", 84 if quick else 900), ("8k", 12 if quick else 120),
-            ("20k", 4 if quick else 48), ("huge", 0 if quick else 2)]
+    plan = [("small", 700 if quick else 7000), ("kib", 200 if quick else 2000), ("8k", 60 if quick else 600),
+            ("20k", 40 if quick else 400), ("huge", 12 if quick else 120)]
     cases = []
     # the expensive classes first and adjacent, so that the checker's round-robin sharding spreads them over the workers
     for size, n in reversed(plan):
